@@ -326,8 +326,8 @@ def settle (infoOf : AMsg → MsgInfo) : Nat → World → World
 /-! ### application API -/
 
 /-- `Application.send_answer(generate_answer(req, rc))`. -/
-def appSendAnswer (s : St) (ai : Nat) (req : AMsg) (info : MsgInfo) (rc : Nat) : St :=
-  let ans := generateAnswer s req info (some rc)
+def appSendAnswer (s : St) (ai : Nat) (req : AMsg) (info : MsgInfo) (rc : Option Nat) : St :=
+  let ans := generateAnswer s req info rc
   match routeAnswer s ans with
   | .error _ => (routeAnswerSideEffect s ans).emit (.raised ai "NotRoutable")
   | .ok (s, cid) =>
